@@ -124,6 +124,29 @@ def run(ctx):
                     ps, corr.flag_names(fv), ', exclude=%r' % ex if ex is not None else '', 'accept' if got else 'reject', n),
                     {'patterns': ps, 'exclude': ex, 'flags': corr.flag_names(fv), 'name': n, 'translate': [pos, neg]})
                 break
+    # RAWCHARS: an escape that decodes to a metacharacter acts as one - in translate() exactly as in the matcher
+    raw_pats = ['\\x7ba,b\\x7d', 'x\\174y', 'x\\u007cy', '\\x7b1..3\\x7d', 'src/\\x7bfoo,bar\\x7d.py', '\\x21a', 'a\\x2a', '\\x5bab\\x5d', '\\x40(a\\x7cb)',
+                '\\N{LEFT CURLY BRACKET}a,b\\N{RIGHT CURLY BRACKET}', '{a,\\x62}', 'p\\x7cq\\x7cr']
+    raw_names = ['a', 'b', '{a,b}', 'x|y', 'x', 'y', 'a,b', '1', '2', '{1..3}', 'src/foo.py', 'src/bar.py', 'src/{foo,bar}.py', '!a', 'a*', 'ab', '[ab]', '@(a|b)',
+                 'p', 'q', 'r', 'p|q|r']
+    for rp in raw_pats:
+        for api in (Fm, Gm):
+            for extra in (0, api.BRACE, api.SPLIT, api.BRACE | api.SPLIT, api.EXTMATCH | api.BRACE | api.SPLIT, api.NEGATE | api.BRACE):
+                fv = api.RAWCHARS | api.FORCEUNIX | extra
+                try:
+                    pos, neg = api.translate(rp, flags=fv)
+                    cp, cn = [re.compile(r) for r in pos], [re.compile(r) for r in neg]
+                    cm = api.compile(rp, flags=fv)
+                except Exception as e:
+                    ctx.counterexample('translate/compile(%r, %s) raised %s' % (rp, corr.flag_names(fv), type(e).__name__), {'pattern': rp, 'flags': corr.flag_names(fv)})
+                    continue
+                for n in raw_names:
+                    n_l += 1
+                    got = any(r.fullmatch(n) for r in cp) and not any(r.fullmatch(n) for r in cn)
+                    if got != cm.match(n):
+                        ctx.counterexample('translate(%r, %s) regexes %s %r but the matcher does not agree (RAWCHARS escape decoding to a metacharacter)' % (
+                            rp, corr.flag_names(fv), 'accept' if got else 'reject', n), {'pattern': rp, 'flags': corr.flag_names(fv), 'name': n, 'translate': [pos, neg]})
+                        break
     ctx.counted('translate lists vs matcher', n_l, n_l // 3, [{'patterns': cases[0][4], 'flags': corr.flag_names(cases[0][2])}])
 
     # ---- (1) translate regexes compile and mean what match does ------------------------------------------------
